@@ -24,13 +24,15 @@ import (
 
 // Config of one run.
 type Config struct {
-	NPub     int     `json:"npub"`
-	Cap      int     `json:"cap"`      // MaxAsyncConcurrency; 0 = unlimited
-	ChainLen int     `json:"chainlen"` // advertisements available per publisher
-	IdleTTL  int     `json:"idle_ttl_ms,omitempty"`
-	HTTPms   int     `json:"http_timeout_ms,omitempty"` // dagsync.HttpTimeout (default 10 s); stalls need a short one
-	Filter   bool    `json:"filter,omitempty"`          // the receiver has an allow-peer filter (deny/allow/rej/relay decisions)
-	V        Variant `json:"variant"`                   // which source variant the mirror follows (detected by Probe)
+	NPub       int     `json:"npub"`
+	Cap        int     `json:"cap"`      // MaxAsyncConcurrency; 0 = unlimited
+	ChainLen   int     `json:"chainlen"` // advertisements available per publisher
+	IdleTTL    int     `json:"idle_ttl_ms,omitempty"`
+	CapFirst   bool    `json:"cap_first,omitempty"`       // MaxAsyncConcurrency is passed BEFORE RecvAnnounce in the option list
+	FirstDepth int     `json:"first_depth,omitempty"`     // dagsync.FirstSyncDepth (0 = none); schedules keep every publisher's first sync within it
+	HTTPms     int     `json:"http_timeout_ms,omitempty"` // dagsync.HttpTimeout (default 10 s); stalls need a short one
+	Filter     bool    `json:"filter,omitempty"`          // the receiver has an allow-peer filter (deny/allow/rej/relay decisions)
+	V          Variant `json:"variant"`                   // which source variant the mirror follows (detected by Probe)
 }
 
 // Decision: one choice of the scheduler.
@@ -274,13 +276,19 @@ func NewRun(cfg Config) *Run {
 			return ok && !r.deny[i].Load()
 		}))
 	}
-	opts := []dagsync.Option{
-		rcv,
-		dagsync.BlockHook(func(p peer.ID, c cid.Cid, _ dagsync.SegmentSyncActions) { r.yieldVia(YHook, p, c, 0) }),
-		dagsync.HttpTimeout(httpTimeout(cfg)),
-	}
-	if cfg.Cap > 0 {
+	// options are applied in the order given: the limit must hold wherever it stands
+	var opts []dagsync.Option
+	if cfg.Cap > 0 && cfg.CapFirst {
 		opts = append(opts, dagsync.MaxAsyncConcurrency(cfg.Cap))
+	}
+	opts = append(opts, rcv,
+		dagsync.BlockHook(func(p peer.ID, c cid.Cid, _ dagsync.SegmentSyncActions) { r.yieldVia(YHook, p, c, 0) }),
+		dagsync.HttpTimeout(httpTimeout(cfg)))
+	if cfg.Cap > 0 && !cfg.CapFirst {
+		opts = append(opts, dagsync.MaxAsyncConcurrency(cfg.Cap))
+	}
+	if cfg.FirstDepth > 0 {
+		opts = append(opts, dagsync.FirstSyncDepth(int64(cfg.FirstDepth)))
 	}
 	if cfg.IdleTTL > 0 {
 		opts = append(opts, dagsync.IdleHandlerTTL(time.Duration(cfg.IdleTTL)*time.Millisecond))
@@ -599,7 +607,12 @@ func (r *Run) advance(t int, pre *arrival, release func()) {
 				ad = r.Pubs[r.pubOf[a.peer]].EntOf(a.c)
 			}
 		}
-		if a.point != y.Point || ad != y.Ad || r.pubOf[a.peer] != th.Pub {
+		if y.Point == YHook && a.point == YHandleUnlocking && r.pubOf[a.peer] == th.Pub && th.Kind != KEntries {
+			// the sync ended although advertisements between its stop and its head are still
+			// unreported: "every advertisement in between was reported exactly once" fails
+			r.abort("ads-not-reported", "publisher %d: the sync of head %d with latest sync %d ended after its block hook had seen only the advertisements above %d: %d..%d were never reported (the head is then recorded as latest sync, so they never will be)",
+				th.Pub, th.Msg, th.Stop, y.Ad, th.Stop+1, y.Ad)
+		} else if a.point != y.Point || ad != y.Ad || r.pubOf[a.peer] != th.Pub {
 			r.abort("yield-mismatch", "thread %d: the model expects %s/%d for publisher %d, the code is at %s/%d for publisher %d",
 				t, y.Point, y.Ad, th.Pub, a.point, ad, r.pubOf[a.peer])
 		}
